@@ -411,6 +411,28 @@ func (s *sys) catalog() (map[string]string, map[string]string) {
 	return svcs, chks
 }
 
+// catalogNoOutput / localNoOutput: the check views with the output blanked.
+func (s *sys) catalogNoOutput() (map[string]string, map[string]string) {
+	chks := map[string]string{}
+	_, cs, _ := s.d.w.Store().NodeChecks(nil, node, structs.DefaultEnterpriseMetaInDefaultPartition(), "")
+	for _, x := range cs {
+		y := x.Clone()
+		y.Output = ""
+		chks[string(y.CheckID)] = chkKey(y)
+	}
+	return nil, chks
+}
+
+func (s *sys) localNoOutput() (map[string]string, map[string]string) {
+	chks := map[string]string{}
+	for id, x := range s.l.AllChecks() {
+		y := x.Clone()
+		y.Output = ""
+		chks[string(id.ID)] = chkKey(y)
+	}
+	return nil, chks
+}
+
 func (s *sys) localView() (map[string]string, map[string]string) {
 	svcs, chks := map[string]string{}, map[string]string{}
 	for id, x := range s.l.AllServices() {
@@ -727,6 +749,18 @@ func deferPhase(c *ev.Ctx) {
 		}},
 		{"SyncChanges", func(s *sys) { _ = s.l.SyncChanges() }},
 		{"SyncFull", func(s *sys) { _ = s.l.SyncFull() }},
+		// the catalog copy of c1 is altered behind the agent's back in a field other than the output
+		{"drift: c1 warning with other notes in the catalog", func(s *sys) {
+			r := regReq()
+			r.SkipNodeUpdate = true
+			ck := chk("c1", "s1", "warning")
+			ck.Notes = "drifted"
+			if _, cs, _ := s.d.w.Store().NodeCheck(node, "c1", nil, ""); cs != nil {
+				ck.Output = cs.Output // the output stays what the catalog has
+			}
+			r.Check = ck
+			s.apply(structs.RegisterRequestType, &r)
+		}},
 	}
 	depth := 4
 	if !c.Quick() {
@@ -748,6 +782,15 @@ func deferPhase(c *ev.Ctx) {
 			for _, i := range path {
 				hist = append(hist, ops[i].name)
 				ops[i].run(s)
+				if ops[i].name == "SyncFull" {
+					// a full sync that succeeded repairs every field but the output, which may wait for its timer
+					_, cchk := s.catalogNoOutput()
+					_, lchk := s.localNoOutput()
+					if d := mapDiff("check", lchk, cchk); len(d) > 0 {
+						c.Violate("C16:full-sync-left-a-drifted-check-while-its-output-is-deferred", fmt.Sprintf("right after a full sync: %s\nhistory: %s", strings.Join(d, "; "), strings.Join(hist, " ; ")), map[string]any{"history": hist})
+						return
+					}
+				}
 			}
 			// quiescence: every timer fires, then the syncs a running agent performs
 			for guard := 0; vtimer.Armed() > 0 && guard < 20; guard++ {
@@ -772,7 +815,7 @@ func deferPhase(c *ev.Ctx) {
 		}
 		for i := range ops {
 			// two syncs or two firings in a row add nothing
-			if len(path) > 0 && i >= 4 && path[len(path)-1] == i {
+			if len(path) > 0 && i >= 4 && i <= 7 && path[len(path)-1] == i {
 				continue
 			}
 			rec(append(append([]int{}, path...), i))
